@@ -36,12 +36,19 @@ struct Ctx {
     case_start: usize,
     oracle_cases: u64,
     prop: String,
+    /// the C02 chain receiver was started from, or stepped through, a state affected by F12
+    chain_tainted: bool,
+    force_f12: bool,
 }
 
 impl Ctx {
     fn record(&mut self, f: Option<Failure>) {
         self.oracle_cases += 1;
         if let Some(f) = f {
+            let scrolled = self.sess.screen().is_some_and(|s| s.scrollback() > 0)
+                || self.sess.runner.slots.iter().flatten().any(|p| p.scrollback() > 0)
+                || self.force_f12;
+            let f = oracle::rekey(f, scrolled, self.sess.runner.cols_changed);
             if self.failures.len() < 200 {
                 let ops = self.sess.ops[self.case_start..].to_vec();
                 self.failures.push((f, ops));
@@ -138,7 +145,7 @@ fn recipe_for(prop: &str) -> Recipe {
         },
         "C12" => Recipe {
             setup: MOVE_SETUP,
-            focus: &[(Kind::Shift, 6), (Kind::Text, 4), (Kind::TextMargin, 2), (Kind::Region, 1), (Kind::Alt, 1)],
+            focus: &[(Kind::Shift, 6), (Kind::Text, 4), (Kind::TextMargin, 2), (Kind::Region, 1), (Kind::Alt, 1), (Kind::Ris, 1)],
             api_scrollback: true,
             ..base
         },
@@ -149,6 +156,8 @@ fn recipe_for(prop: &str) -> Recipe {
             ..base
         },
         "C03" | "C13" => Recipe { api_resize: true, api_scrollback: true, sync_each: false, steps: 30, ..base },
+        // the redraw properties speak of every reachable screen: resized ones too
+        "C01" | "C15" | "C19" | "C02" => Recipe { api_resize: true, api_scrollback: true, ..base },
         _ => Recipe { api_scrollback: true, ..base },
     }
 }
@@ -319,11 +328,15 @@ fn run_oracle(ctx: &mut Ctx, dirty: &mut Option<Vec<u8>>, chain: &mut Option<(vt
                 }
             }
             // chain on one receiver
+            let f12_now = ctx.sess.runner.cols_changed && s.scrollback() > 0;
             match chain.take() {
                 Some((mut recv, prev)) if prev.size() == s.size() => {
                     let f = vtharness::catch(|| oracle::c02_step(&mut recv, &prev, &s)).unwrap_or(None);
                     let bad = f.is_some();
+                    ctx.chain_tainted |= f12_now;
+                    ctx.force_f12 = ctx.chain_tainted;
                     ctx.record(f);
+                    ctx.force_f12 = false;
                     if !bad {
                         *chain = Some((recv, s.clone()));
                     }
@@ -331,6 +344,7 @@ fn run_oracle(ctx: &mut Ctx, dirty: &mut Option<Vec<u8>>, chain: &mut Option<(vt
                 _ => {
                     let mut recv = oracle::fresh_like(&s);
                     recv.process(&s.state_formatted());
+                    ctx.chain_tainted = f12_now;
                     *chain = Some((recv, s.clone()));
                 }
             }
@@ -415,6 +429,30 @@ fn templates(ctx: &mut Ctx) {
                 ctx.sess.checked(&format!("P {x:02x}62"), "C1");
                 ctx.sess.checked("D", "D:C1");
                 ctx.sess.checked("E", "E:C1");
+            }
+        }
+        "C12" | "C17" | "C11" => {
+            // a full reset while the alternate screen shows must keep the scrollback capacity of
+            // the primary screen: lines scrolled off afterwards are recorded and can be viewed
+            for alt in ["1b5b3f3130343968", "1b5b3f343768", ""] {
+                for (rows, cols, sb) in [(3u64, 10u64, 5u64), (2, 4, 1), (4, 6, 3)] {
+                    ctx.case_start = ctx.sess.ops.len();
+                    ctx.sess.new_case(rows, cols, sb, "none", "template");
+                    ctx.sess.checked("P 310d0a320d0a330d0a34", "Text");
+                    if !alt.is_empty() {
+                        ctx.sess.checked(&format!("P {alt}"), "Alt");
+                        ctx.sess.checked("P 7669", "Text");
+                    }
+                    ctx.sess.checked("P 1b63", "Ris");
+                    ctx.sess.checked("D", "D:Ris");
+                    ctx.sess.checked("P 310d0a320d0a330d0a340d0a350d0a36", "Text");
+                    ctx.sess.checked("D", "D:Text");
+                    for k in [1u64, 2, 9] {
+                        ctx.sess.checked(&format!("B {k}"), "B");
+                        ctx.sess.checked("D", "D:B");
+                        ctx.sess.checked("T", "T");
+                    }
+                }
             }
         }
         "C19" | "C01" | "C02" | "C15" => {
@@ -756,6 +794,8 @@ fn cmd_gen(prop: &str, seed: u64, tier: &str, outdir: &str) {
         failures: vec![],
         case_start: 0,
         oracle_cases: 0,
+        chain_tainted: false,
+        force_f12: false,
         prop: prop.to_string(),
     };
     let n_cases: u64 = std::env::var("VERIF_CASES").ok().and_then(|s| s.parse().ok()).unwrap_or(if thorough { 8000 } else { 800 });
